@@ -323,8 +323,10 @@ package nsqd
 // The goroutine body: PersistMetadata is only ever called between n.Lock() and n.Unlock() (its precondition
 // gTopicsOK is only available from the lock invariant), never while loading, never when persist is false.
 //@ func (n *NSQD) Notify$1()
-//@   props C06
+//@   props C06 C16
 //@   requires n != nil
+//   (round 4, area C) the value announced to lookupLoop is a real object (captured v; Notify's own precondition) - channel invariant of notifyChan
+//@   requires[announces-an-object] r4CNotifiable(v)
 //@   ensures[at-most-one-persist] gMetaCalls == old(gMetaCalls) || gMetaCalls == old(gMetaCalls) + 1
 //@   ensures[not-while-loading-or-unasked] loading || !persist ==> gMetaCalls == old(gMetaCalls) && gfsOpens == old(gfsOpens) && gfsRenames == old(gfsRenames)
 //@   ensures[document-of-this-daemon] gMetaCalls == old(gMetaCalls) + 1 ==> gMetaOf == n && !gMetaEph
